@@ -545,7 +545,7 @@ func init() {
 		Shards: shards(12, 16),
 		Meta: func(tier string) rt.Meta {
 			return rt.Meta{Level: "exploration", MinEvals: 2000, MinDistinct: 50,
-				Rule: "differential lockstep against the Linux kernel (tmpfs, chroot) through osfs.OsFS: (i) breadth-first over distinct states of a 2-name depth-2 universe, every concrete call of ~45 templates tried from every state up to the depth bound; (ii) random template-driven histories with aliasing bias. A case = one compared call (outcome class + values + full tree + WalkDir order + cwd after it). Signature = fs | call kind[flags] | pre-state class of each operand | outcome(s). Non-trivial = the call was issued after at least one successful mutation of the tree (its outcome depends on history); distinct_nontrivial counts distinct such signatures.",
+				Rule: "differential lockstep against the Linux kernel (tmpfs, chroot) through osfs.OsFS: (i) breadth-first over distinct states of a 2-name depth-2 universe, every concrete call of ~45 templates tried from every state up to the depth bound; (ii) random template-driven histories with aliasing bias. A case = one compared call (outcome class + values + full tree + WalkDir order + cwd after it). Link budget (MemFS): the queries on a directory, a file and a link that is not followed reached through chains of 39/40/41 and 254/255/256 links. Signature = fs | call kind[flags] | pre-state class of each operand | outcome(s). Non-trivial = the call was issued after at least one successful mutation of the tree (its outcome depends on history); distinct_nontrivial counts distinct such signatures.",
 				Assumptions: []string{"tmpfs under chroot stands for 'a real Linux directory'", "error wrapper fields (Op, Path) and directory sizes/link counts, inode numbers, atime and non-sentinel mtimes are not compared",
 					"the running process is root with full capabilities (administrator)"}}
 		},
@@ -571,10 +571,41 @@ func init() {
 						append(append([]fsx.Op{}, w...), fsx.Op{K: "Symlink", P: "zz", Q: "/w/a"}, fsx.Op{K: "Symlink", P: "/w/b", Q: "/w/b"}))
 				}
 				c01BFS(c, fsType, c.Pick(1, 2), roots)
+				if fsType == "MemFS" && c.Shard == 0 {
+					c01Budget(c)
+				}
 				c01Random(c, fsType, c.Pick(360, 6000), c.Pick(200, 300))
 			}
 		},
 	})
+}
+
+// c01Budget: the read-only queries at the limits of link resolution (40 links followed by the kernel, 255 by
+// EvalSymlinks): a directory reached through a chain of n links, a file reached through another one, and a link that is
+// not followed behind the first chain.
+func c01Budget(c *rt.Ctx) {
+	l := &lockstep{c: c, fsType: "MemFS", symSize: true}
+	for _, n := range []int{39, 40, 41, 254, 255, 256} {
+		g := []fsx.Op{{K: "Mkdir", P: "/w", Perm: 0o755}, {K: "Mkdir", P: "/w/d", Perm: 0o755}, {K: "WriteFile", P: "/w/d/f", Data: "x", Perm: 0o644}, {K: "Symlink", P: "f", Q: "/w/d/lnk"}}
+		for i := n - 1; i >= 0; i-- {
+			t, u := fmt.Sprintf("k%d", i+1), fmt.Sprintf("/w/d/m%d", i+1)
+			if i == n-1 {
+				t, u = "d", "/w/d/f"
+			}
+			g = append(g, fsx.Op{K: "Symlink", P: t, Q: fmt.Sprintf("/w/k%d", i)}, fsx.Op{K: "Symlink", P: u, Q: fmt.Sprintf("/w/d/m%d", i)})
+		}
+		if !c04Build(l, g) {
+			continue
+		}
+		for _, o := range []fsx.Op{{K: "Stat", P: "/w/k0"}, {K: "ReadDir", P: "/w/k0"}, {K: "EvalSymlinks", P: "/w/k0"}, {K: "Lstat", P: "/w/k0/lnk"}, {K: "Readlink", P: "/w/k0/lnk"}, {K: "Stat", P: "/w/k0/f"},
+			{K: "Stat", P: "/w/d/m0"}, {K: "ReadFile", P: "/w/d/m0"}, {K: "EvalSymlinks", P: "/w/d/m0"}, {K: "Lstat", P: "/w/d/m0"}, {K: "Open", P: "/w/d/m0", H: 3}, {K: "Glob", P: "/w/k0/*"}} {
+			sr := l.stepQuery(o)
+			sr.sig = fmt.Sprintf("links=%d|", n) + sr.sig
+			l.report(0o022, sr, false)
+		}
+		l.emu.CloseAll()
+		l.osx.CloseAll()
+	}
 }
 
 // stepQuery executes a read-only query on both sides and compares the outcomes only (the caller knows that queries do not
